@@ -3,8 +3,10 @@ package main
 import (
 	"fmt"
 
+	"cosmossdk.io/core/appmodule"
 	sdkmath "cosmossdk.io/math"
 	sdk "github.com/cosmos/cosmos-sdk/types"
+	"github.com/cosmos/cosmos-sdk/types/query"
 
 	leveragelptypes "github.com/elys-network/elys/x/leveragelp/types"
 	perpetualtypes "github.com/elys-network/elys/x/perpetual/types"
@@ -487,11 +489,98 @@ func (m *MonC10) PostTx(ctx sdk.Context, t *ExecTx) {
 
 // BeforeBlock: state of the previous block + header of the new block = what the
 // begin-block sweep will see.
+// BeforeBlock mirrors what the chain will do up to and including the leveraged-LP sweep on
+// a discarded branch of (committed state + new header): the begin blockers of the modules
+// that run before leveragelp (interest rates, epochs, ...), then the sweep's own loop with
+// the chain's functions and freshly read pools. Each position of the page is evaluated at
+// the moment its turn comes - an earlier close of the same pool in the same sweep
+// legitimately moves the exit value of the later ones - and positions outside the page
+// against the state the sweep leaves behind.
 func (m *MonC10) BeforeBlock(s *Sim, ctx sdk.Context) {
 	m.sweepPre = m.sweepPre[:0]
 	m.sweepFor = ctx.BlockHeight()
-	for _, p := range s.N0.App.LeveragelpKeeper.GetAllPositions(ctx) {
-		if c := m.evalLP(ctx, p.Address, p.Id); c.ok {
+	app := s.N0.App
+	mctx, _ := ctx.CacheContext()
+	mctx = mctx.WithEventManager(sdk.NewEventManager())
+	mm := app.ModuleManager()
+	broken := false
+	for _, name := range mm.OrderBeginBlockers {
+		if name == leveragelptypes.ModuleName {
+			break
+		}
+		bb, ok := mm.Modules[name].(appmodule.HasBeginBlocker)
+		if !ok {
+			continue
+		}
+		func() {
+			defer func() {
+				if r := recover(); r != nil {
+					broken = true
+				}
+			}()
+			if err := bb.BeginBlock(mctx); err != nil {
+				broken = true
+			}
+		}()
+		if broken {
+			// the real block will fail the same way (C18's business); no sweep to judge
+			s.Stats.Probe("c10_sweep_mirror_unavailable")
+			m.sweepFor = -1
+			return
+		}
+	}
+	k := app.LeveragelpKeeper
+	inPage := map[string]bool{}
+	func() {
+		defer func() {
+			if r := recover(); r != nil {
+				broken = true
+			}
+		}()
+		params := k.GetParams(mctx)
+		if k.GetEpochPosition(mctx, k.GetEpochLength(mctx)) != 0 || !params.FallbackEnabled {
+			return
+		}
+		offset, _ := k.GetOffset(mctx)
+		positions, _, err := k.GetPositions(mctx, &query.PageRequest{Limit: uint64(params.NumberPerBlock), CountTotal: true, Offset: offset})
+		if err != nil {
+			return
+		}
+		s.Stats.Probe("c10_sweep_mirrored")
+		for _, position := range positions {
+			inPage[fmt.Sprintf("%s/%d", position.Address, position.Id)] = true
+			if c := m.evalLP(mctx, position.Address, position.Id); c.ok {
+				m.sweepPre = append(m.sweepPre, c)
+			}
+			pool, found := k.GetPool(mctx, position.AmmPoolId)
+			if !found {
+				continue
+			}
+			ammPool, err := k.GetAmmPool(mctx, pool.AmmPoolId)
+			if err != nil {
+				continue
+			}
+			isHealthy, closeAttempted, _, err := k.CheckAndLiquidateUnhealthyPosition(mctx, position, pool, ammPool)
+			if err == nil {
+				s.Stats.Probe("c10_sweep_mirror_closed_a_position")
+				continue
+			}
+			if isHealthy && !closeAttempted {
+				_, _, _ = k.CheckAndCloseAtStopLoss(mctx, position, pool, ammPool)
+			}
+		}
+	}()
+	if broken {
+		s.Stats.Probe("c10_sweep_mirror_unavailable")
+		m.sweepFor = -1
+		m.sweepPre = m.sweepPre[:0]
+		return
+	}
+	for _, p := range k.GetAllPositions(mctx) {
+		if inPage[fmt.Sprintf("%s/%d", p.Address, p.Id)] {
+			continue
+		}
+		if c := m.evalLP(mctx, p.Address, p.Id); c.ok {
 			m.sweepPre = append(m.sweepPre, c)
 		}
 	}
